@@ -258,6 +258,57 @@ Proof.
   rewrite ?H0, ?H, ?Hn, ?Hm. apply andb_false_r.
 Qed.
 
+(** * Post-states of the two ownership-changing methods (names map only) *)
+Lemma names_update_balance s t a d : names (update_balance hash s t a d) = names s.
+Proof. reflexivity. Qed.
+
+Lemma names_put_soa c s n e a b x d s' :
+  put_soa hash valid_name c s n e a b x d = Halt s' -> names s' = names s.
+Proof. unfold put_soa. intros H. inv_binds H. injection H as <-. reflexivity. Qed.
+
+Lemma names_save_domain c s n e a b x d o s' :
+  save_domain hash valid_name c s n e a b x d o = Halt s' ->
+  exists exp, names s' = <[hash n := mkNS o n exp None]> (names s).
+Proof.
+  unfold save_domain. intros H. inv_binds H. apply names_put_soa in H. rewrite H. eauto.
+Qed.
+
+Lemma transfer_post c s o2 n s' ns ns0 :
+  nexec c s (Transfer (Some o2) n) = Halt (s', VBool true, ns) ->
+  get_ns s n = Some ns0 -> ns_owner ns0 <> Some o2 ->
+  get_ns s' n = Some (mkNS (Some o2) (ns_name ns0) (ns_exp ns0) None) /\ length o2 = 20%nat.
+Proof.
+  intros H Hn Hne. cbn [NNS.nexec] in H. inv_binds H.
+  match goal with E : get_ns_with_key _ _ _ = Halt ?n |- _ =>
+    apply (get_ns_with_key_halt hash valid_name valid_data str_ok) in E as [Hn' _]; rename n into ns1 end.
+  unfold NNS.get_ns in Hn. rewrite Hn in Hn'. injection Hn' as <-.
+  match goal with E : is_valid _ = true |- _ => cbn in E; apply Nat.eqb_eq in E; rename E into Hl end.
+  split; [|exact Hl].
+  match goal with E : witness _ _ = Halt ?w |- _ => destruct w end; cbn [negb] in H; [|discriminate H].
+  inv_binds H. injection H as <- _.
+  destruct (ns_owner ns0) as [o|] eqn:Eo.
+  - change (akey (Some o)) with o. change (akey (Some o2)) with o2.
+    destruct (bytes_eqb o o2) eqn:Eb; [apply bytes_eqb_eq in Eb; subst; contradiction|].
+    unfold NNS.get_ns. rewrite !names_update_balance. cbn [names set_names]. apply lookup_insert.
+  - match goal with E : witness _ (akey None) = _ |- _ => discriminate E end.
+Qed.
+
+Lemma register_post c s o2 n e a b x d s' ns :
+  nexec c s (Register n (Some o2) e a b x d) = Halt (s', VBool true, ns) ->
+  (exists exp, get_ns s' n = Some (mkNS (Some o2) n exp None)) /\ length o2 = 20%nat.
+Proof.
+  intros H. cbn [NNS.nexec] in H. inv_binds H.
+  match goal with E : is_valid _ = true |- _ => cbn in E; apply Nat.eqb_eq in E; rename E into Hl end.
+  split; [|exact Hl].
+  destruct (get_ns s n) as [ns0|].
+  - destruct (now c <? ns_exp ns0); [discriminate H|]. inv_binds H. injection H as <- _.
+    match goal with E : save_domain _ _ _ _ _ _ _ _ _ _ _ = Halt _ |- _ => apply names_save_domain in E as [exp Hsd] end.
+    exists exp. unfold NNS.get_ns. rewrite names_update_balance, Hsd. apply lookup_insert.
+  - inv_binds H. injection H as <- _.
+    match goal with E : save_domain _ _ _ _ _ _ _ _ _ _ _ = Halt _ |- _ => apply names_save_domain in E as [exp Hsd] end.
+    exists exp. unfold NNS.get_ns. rewrite names_update_balance, Hsd. apply lookup_insert.
+Qed.
+
 (** the token of a live, well-formed, non-TLD name is the name itself *)
 Lemma token_of_live c s n :
   valid_name n = true -> (2 <=? level n)%nat = true -> live hash c s n = true ->
